@@ -317,4 +317,6 @@ def check(ctx: Ctx, col: Collector, tier: str) -> None:
 
     # ------------------------------------------------------------------ MEMO-KEY
     memo_obligations(ctx, col, "C16.MEMO-KEY", set(GENMODS))
+    from .shared import share
+    share(ctx, col, "C10", {"C10.WRITE-MODE"}, "a second run into the same output directory leaves exactly the files of a single run: module stubs are rewritten, placeholder stubs are created once per run and appended to within it")
     col.assume("equality of the texts of two generations is relational and is not decided; stale files of a different earlier input are not decided")
